@@ -353,6 +353,11 @@ class SpawnProcess(multiprocessing.context.SpawnProcess):
             return
 
         self._result_collector_thread_.join()
+        # The collector thread may have collected the child's exit status first; then the
+        # standard ``join`` above returned without taking note of the exit (the process stays
+        # among the "active children" and is kept alive). By now the status is known; let the
+        # standard ``join`` take note.
+        super().join(0)
 
         # exitcode = self.exitcode
         # if exitcode is None:
@@ -407,6 +412,7 @@ class SpawnProcess(multiprocessing.context.SpawnProcess):
         if not self._exited():
             raise TimeoutError
         self._result_collector_thread_.join()
+        super().join(0)  # see `join`
         return self._future_.exception()
 
 
